@@ -324,6 +324,48 @@ WANT_LEAVES = {
 }
 
 
+def table_enums(F):
+    """{path: leaf type} of the crate's unit-only enums whose hand-written Deserialize impl is a total table: it reads one
+    primitive of the enum's wire type (text for string enums, the #[repr] integer otherwise), reports a failed read, and
+    otherwise decides on the value read alone (ftable.enum_decode)"""
+    cached = getattr(F, "_table_enums", None)
+    if cached is not None:
+        return cached
+    from . import ftable as FT
+    import re as _re
+    out = {}
+    for a in F.adts.values():
+        if not a["local"] or a["kind"] != "enum" or any(v["fields"] for v in a["variants"]):
+            continue
+        fns = F.impl_fn("serde_core::de::Deserialize", a["path"], "deserialize")
+        if len(fns) != 1 or (fns[0].get("impl") or {}).get("impl_pv") != "user":
+            continue
+        m = _re.match(r"Fixed\(I(\d+), (true|false)\)", (a.get("repr") or {}).get("int") or "")
+        rint = (("i" if m.group(2) == "true" else "u") + m.group(1)) if m else None
+        try:
+            if rint:
+                ty, dec, _ = FT.enum_decode(F, a["path"], range(256) if rint == "u8" else [FT.OTHER], add_literals=(rint != "u8"))
+                if ty != rint:
+                    continue
+            else:
+                ty, dec, _ = FT.enum_decode(F, a["path"], [FT.OTHER], add_literals=True)
+                if ty != "str":
+                    continue
+        except FT.Unreadable:
+            continue
+        out[a["path"]] = "&str" if ty == "str" else ty
+    F._table_enums = out
+    return out
+
+
+def want_leaves(F):
+    """the documented leaf types of the hand-written decoders, plus the wire type of every table enum"""
+    w = dict(WANT_LEAVES)
+    for path, ty in table_enums(F).items():
+        w[("type", path)] = {ty}
+    return w
+
+
 def handwritten_leaves(F):
     """{key: set of leaf types decoded by hand-written code}, key = ('type', T) for the Deserialize impl of T (its nested visitors
     included, whatever they are called), ('with', struct, field) for a `deserialize_with` function of a member, ('fn', path) for
